@@ -5,10 +5,10 @@
    (a) THE GLIB PART IS A MODEL OF AN EXTERNAL C LIBRARY.  It is not verified; it is validated against the
        real libglib-2.0 (2.74) by corpus/glib/glib_experiments.py and by the C20 correspondence run:
        * a main context = the idle sources attached to it, in attach order, each with a priority and the
-         flags destroyed / in-call, plus the list of pending dispatches of the iteration in progress;
+         flag in-call (a destroyed source leaves the context), plus the list of pending dispatches of the iteration in progress;
        * g_main_context_iteration(ctx, may_block): the pending list is cleared (so an iteration started from
          inside a callback takes over whatever an outer iteration of the same context had left); the ready
-         sources are the attached, not destroyed, not in-call ones (an idle source is always ready); those of
+         sources are the attached, not in-call ones (an idle source is always ready); those of
          the numerically lowest priority among them, in attach order, form the batch; they are dispatched one
          after the other, skipping those destroyed meanwhile; sources attached during the dispatch wait for a
          later iteration whatever their priority; a callback answering FALSE destroys its source;
@@ -28,27 +28,26 @@ Import ListNotations.
 
 (* ------------------------------------------------------------------ GLib: sources and contexts *)
 Record gsource := {
-  gs_seq : nat;            (* attach order (global counter): identity of the source *)
+  gs_seq : N;              (* attach order (global counter): identity of the source *)
   gs_prio : Z;             (* g_source_set_priority(signal.priority) *)
   gs_sig : signal;         (* CallbackArgs.signal *)
   gs_bound : bool;         (* CallbackArgs.handlers is the live list object self._handlers[type(signal)]
                               (the class had a handler list when the signal was enqueued); otherwise a
                               private list: [] or, for an ExceptionSignal, [kill_app_with_traceback] *)
-  gs_destroyed : bool;
   gs_incall : bool }.      (* G_HOOK_FLAG_IN_CALL: being dispatched, hence blocked for recursive iterations *)
 #[export] Instance eta_gsource : Settable _ :=
-  settable! Build_gsource <gs_seq; gs_prio; gs_sig; gs_bound; gs_destroyed; gs_incall>.
+  settable! Build_gsource <gs_seq; gs_prio; gs_sig; gs_bound; gs_incall>.
 
 (* one entry of GLibEventLoop._event_loops: EventLoopData(loop) with its GLib.MainLoop and the loop's context *)
 Record glevel := {
-  gl_sources : list gsource;     (* the context: attached sources, attach order *)
-  gl_pending : list nat;         (* context->pending_dispatches of the iteration in progress (gs_seq) *)
+  gl_sources : list gsource;     (* the context: attached sources, attach order; g_source_destroy removes *)
+  gl_pending : list N;           (* context->pending_dispatches of the iteration in progress (gs_seq) *)
   gl_running : bool;             (* loop->is_running *)
   gl_srcs : list nat }.          (* EventLoopData.sources: registered signal sources *)
 #[export] Instance eta_glevel : Settable _ := settable! Build_glevel <gl_sources; gl_pending; gl_running; gl_srcs>.
 Definition empty_level : glevel := {| gl_sources := []; gl_pending := []; gl_running := false; gl_srcs := [] |}.
 
-Definition gs_live (x : gsource) : bool := negb (gs_destroyed x) && negb (gs_incall x).
+Definition gs_live (x : gsource) : bool := negb (gs_incall x).
 
 (* the least priority value among the ready sources *)
 Fixpoint min_prio (acc : option Z) (l : list gsource) : option Z :=
@@ -62,24 +61,27 @@ Fixpoint min_prio (acc : option Z) (l : list gsource) : option Z :=
               else acc) r
   end.
 (* the batch of one iteration: ready sources of that priority, attach order *)
-Definition batch_of (l : list gsource) : list nat :=
+Definition batch_of (l : list gsource) : list N :=
   match min_prio None l with
   | None => []
   | Some p => map gs_seq (filter (fun x => gs_live x && (gs_prio x =? p)%Z) l)
   end.
-Definition find_source (l : list gsource) (q : nat) : option gsource :=
-  find (fun x => (gs_seq x =? q)%nat) l.
-Definition upd_source (l : list gsource) (q : nat) (f : gsource -> gsource) : list gsource :=
-  map (fun x => if (gs_seq x =? q)%nat then f x else x) l.
+Definition find_source (l : list gsource) (q : N) : option gsource :=
+  find (fun x => (gs_seq x =? q)%N) l.
+Definition upd_source (l : list gsource) (q : N) (f : gsource -> gsource) : list gsource :=
+  map (fun x => if (gs_seq x =? q)%N then f x else x) l.
+(* g_source_destroy: the source leaves its context (a pending dispatch of it is skipped) *)
+Definition del_source (l : list gsource) (q : N) : list gsource :=
+  filter (fun x => negb (gs_seq x =? q)%N) l.
 
-(* what successive iterations would dispatch: not destroyed sources by (priority, attach order) *)
+(* what successive iterations would dispatch: attached sources by (priority, attach order) *)
 Fixpoint insert_src (x : gsource) (l : list gsource) : list gsource :=
   match l with
   | [] => [x]
   | y :: r => if (gs_prio x <? gs_prio y)%Z then x :: l else y :: insert_src x r
   end.
 Definition attached_in_order (l : list gsource) : list gsource :=
-  fold_left (fun acc x => insert_src x acc) (filter (fun x => negb (gs_destroyed x)) l) [].
+  fold_left (fun acc x => insert_src x acc) l [].
 
 Section GLoop.
   Context {U : Type}.
@@ -92,7 +94,7 @@ Section GLoop.
     gforce_quit : bool;
     gquit_cb : option nat;
     gnext_sig : nat;
-    gnext_seq : nat;
+    gnext_seq : N;
     gext : list sigspec;
     gtrace : list event;                  (* newest first *)
     gust : U }.
@@ -103,7 +105,7 @@ Section GLoop.
   (* GLibEventLoop.__init__: one level on the default main context *)
   Definition ginit_state (u : U) : gstate :=
     {| gstore := [empty_level]; glevels := [0]; ghandlers := []; gtickets := tm_empty; gforce_quit := false;
-       gquit_cb := None; gnext_sig := 0; gnext_seq := 0; gext := []; gtrace := []; gust := u |}.
+       gquit_cb := None; gnext_sig := 0; gnext_seq := 0%N; gext := []; gtrace := []; gust := u |}.
 
   Definition gemit (e : event) (s : gstate) : gstate := s <| gtrace := e :: gtrace s |>.
   Definition guser_event (e : event) : event :=
@@ -141,8 +143,8 @@ Section GLoop.
       | Some l =>
         let src := {| gs_seq := gnext_seq s; gs_prio := sg_prio sg; gs_sig := sg;
                       gs_bound := match ghandlers_of s (sg_cls sg) with Some _ => true | None => false end;
-                      gs_destroyed := false; gs_incall := false |} in
-        Some (upd_l (gemit (EEnq (sg_id sg) l) (s <| gnext_seq := S (gnext_seq s) |>)) l
+                      gs_incall := false |} in
+        Some (upd_l (gemit (EEnq (sg_id sg) l) (s <| gnext_seq := N.succ (gnext_seq s) |>)) l
                     (fun v => v <| gl_sources := gl_sources v ++ [src] |>))
       end.
 
@@ -158,8 +160,7 @@ Section GLoop.
 
   (* source.destroy(); self._mark_signal_processed(signal) — the tail of _run_handlers *)
   Definition finish_source (s : gstate) (l : nat) (src : gsource) : gstate :=
-    let s1 := upd_l s l (fun v => v <| gl_sources := upd_source (gl_sources v) (gs_seq src)
-                                                                  (fun x => x <| gs_destroyed := true |>) |>) in
+    let s1 := upd_l s l (fun v => v <| gl_sources := del_source (gl_sources v) (gs_seq src) |>) in
     gemit (EDispatchEnd (sg_id (gs_sig src)))
           (if mark_first then s1
            else s1 <| gtickets := mark_line_to_go (gtickets s1) (sg_cls (gs_sig src)) |>).
@@ -229,17 +230,14 @@ Section GLoop.
         | q :: rest =>
           let s1 := upd_l s l (fun v => v <| gl_pending := rest |>) in
           match find_source (gl_sources (get_l s1 l)) q with
-          | None => gexec f (GDispatch l) s1
+          | None => gexec f (GDispatch l) s1           (* destroyed meanwhile: skipped *)
           | Some src =>
-            if gs_destroyed src then gexec f (GDispatch l) s1
-            else
               let s2 := upd_l s1 l (fun v => v <| gl_sources := upd_source (gl_sources v) q
                                                                            (fun x => x <| gs_incall := true |>) |>) in
               let '(o, s3) := gexec f (GRunHandlers l src) s2 in
               (* the callback answered None (FALSE), or an ordinary exception was printed (FALSE): the
                  in-call flag is dropped and the source destroyed *)
-              let after st := upd_l st l (fun v => v <| gl_sources := upd_source (gl_sources v) q
-                                  (fun x => x <| gs_incall := false |> <| gs_destroyed := true |>) |>) in
+              let after st := upd_l st l (fun v => v <| gl_sources := del_source (gl_sources v) q |>) in
               match o with
               | ONormal | OThrow XError | OThrow XExit => gexec f (GDispatch l) (after s3)
               | _ => (o, s3)
